@@ -304,7 +304,15 @@ func (g *mdGen) document() string {
 		case k == 9 && r.Bool():
 			w := g.word()
 			g.toks = append(g.toks, mdTok{tok: w, block: "mathblock", math: true})
-			sb.WriteString("$$\n" + w + "\n$$\n\n")
+			sb.WriteString("$$\n" + w + "\n$$\n")
+			if r.Chance(1, 3) {
+				// a second display formula directly after the first, without a blank line in between
+				w2 := g.word()
+				g.toks = append(g.toks, mdTok{tok: w2, block: "mathblock", math: true})
+				sb.WriteString("$$\n" + w2 + "\n$$\n")
+				g.use("math-blocks-in-a-row")
+			}
+			sb.WriteString("\n")
 			g.use("math-block")
 		case k == 9:
 			sb.WriteString("---\n\n")
